@@ -113,6 +113,10 @@ def defined(e):
         return False
 
 
+def has_inexact_float(e):
+    return any(isinstance(x, float) for x in G.walk(e))
+
+
 def value_preserved(ctx, check_name, case, name, e, out):
     try:
         want = rf(e)
@@ -126,6 +130,11 @@ def value_preserved(ctx, check_name, case, name, e, out):
                  f"{name}({e}) = {out}, which divides by the zero function")
         return False
     if not (got == want):
+        if has_inexact_float(out) and got.close(want):
+            # a float by-product of the transformation itself (6.25 ** -2 -> 0.0256): equal up
+            # to rounding is all that float arithmetic can give
+            ctx.count("value_equal_up_to_float_rounding")
+            return True
         ctx.fail(check_name, case, f"{name}:value",
                  f"{name}({e}) = {out}: as rational functions {want} became {got}")
         return False
@@ -212,6 +221,9 @@ def c_fold(ctx, case):
 def c_context(ctx, case):
     """flatten / fold inside arbitrary evaluable contexts: values on a box (+ matrices)."""
     e, envs = case
+    if faulty_constant_subtree(e):
+        ctx.count("context_with_always_faulty_subtree_skipped")
+        return
     rewrites = [("flatten", lambda x: flatten(x), True), ("fold", lambda x: ConstantFoldingMapper()(x), True),
                 ("commutative-fold", lambda x: CommutativeConstantFoldingMapper()(x), False)]
     for name, f, noncomm_ok in rewrites:
@@ -362,10 +374,18 @@ def c_expandpair(ctx, case):
                  f"{e1} and {e2} are the same polynomial but expand to {o1} and {o2}")
 
 
+_PROBE = [G.base_env(x, y, z, s=s, t=t) for x, y, z, s, t in
+          ((1, 2, 3, 1, True), (-2, 3, -1, 0, False), (3, -1, 2, 2, True), (2, 1, -2, 1, False))]
+
+
 def faulty_constant_subtree(e):
+    """Some sub-tree raises an arithmetic error wherever it is evaluated: a constant one
+    (1 % 0), or one that is constant in value (5 % (0*z)).  Folding computes such sub-trees
+    eagerly, as evaluation would; they are outside the fragment."""
     for x in G.walk(e):
-        if isinstance(x, p.Expression) and not G.variables_of(x):
-            if refsem.outcome(lambda: refsem.ev(x, {}))[0] != "v":
+        if isinstance(x, p.Expression):
+            envs = [{}] if not G.variables_of(x) else _PROBE
+            if all(refsem.outcome(lambda: refsem.ev(x, env))[0] == "exc" for env in envs):
                 return True
     return False
 
